@@ -215,14 +215,21 @@ def cell_vs_tok(c, tok):
 class CHECK(Check):
     pid = "C11"
     technique = ("Lean 4 theorems over the Weights/BaseMetrics models (weighted = replicated, scale invariance, lift through "
-                 "grouping, aggregates and named metrics) + metamorphic correspondence on the real functions")
+                 "grouping, aggregates and named metrics), over the TRANSLATED base metrics (Generated/BaseMetricsSrc.lean) and "
+                 "over the full MetricFrame model with arbitrary payload (several sample parameters) + metamorphic "
+                 "correspondence on the real functions")
     level_text = ("Theorems (all row lists, all group structures, all multiplicities k>=1, all c>0): rate/selection_rate/"
                   "mean_prediction of integer-weighted rows = of physically replicated rows; invariance under scaling; "
                   "None = ones; replication commutes with group selection, hence by_group, overall, group_min/max, "
                   "difference, ratio and demographic_parity/equal_opportunity/equalized_odds difference/ratio agree, incl. a "
                   "group that is one weighted row. Tie: the real functions are called on weighted / replicated / scaled / "
                   "omitted / ones variants of generated data and compared to each other, to an exact replicate-and-count "
-                  "oracle and to the compiled Lean model.")
+                  "oracle and to the compiled Lean model. Source tie: the same relations for the translated functions exactly as "
+                  "fairlearn is called (sample_weight=k vs replicated rows with sample_weight=None; scaling; None = ones) via "
+                  "C14.src_*_eq_model. Full frame model: any metric that is weight-multiplicative on slices gives the same "
+                  "by_group (index incl. re-indexed empty combinations, cells) and overall on weighted and replicated rows, any "
+                  "number of features and per-sample parameters (metricframe_weight_is_multiplicity); instances for the pool's "
+                  "weighted means and the two-parameter metric sum(a*ids).")
     design_ref = "DESIGN.md section 4, C11"
     quick_cases = 200
     thorough_cases = 6000
@@ -234,7 +241,8 @@ class CHECK(Check):
             "the mixed dict frame), containers list/ndarray/Series/DataFrame/dict; variants W,R,S3,S4,N,Nn,O as in the module "
             "docstring; six base metrics on every variant, a dict MetricFrame (3 of 6 metrics) on W/R, a callable MetricFrame on "
             "W/S3/S4/N/O, a dict MetricFrame whose metrics get different weight vectors, 2 named fairness metrics on W/R and 1 "
-            "on S3/S4/N/O; distinct = distinct (data, weights, layout, plan); non-trivial = at least one weight > 1")
+            "on S3/S4/N/O, and a callable MetricFrame with TWO sample parameters (a = k, ids = 8*score+1; metric sum(a*ids)) on "
+            "W/R; distinct = distinct (data, weights, layout, plan); non-trivial = at least one weight > 1")
     explanation = ("theorems over the Lean models Weights+BaseMetrics (all inputs); correspondence: real functions on the weight "
                    "variants vs each other (property relations), vs an exact replicate-and-count Fraction oracle and vs the "
                    "compiled driver (values within 1e-12, scalar-ness, result types, group index)")
@@ -414,6 +422,61 @@ class CHECK(Check):
                                                         **{kk: tabs[kk][c] for kk in tabs})
         return {"types": types, "slices": slices}
 
+    @staticmethod
+    def _q(case):
+        """the second per-sample parameter: 8*score + 1 (integers 1..9)"""
+        return [8 * F(x) + 1 for x in case["score"]]
+
+    def _two_frame(self, case, v):
+        import fairlearn.metrics as fm
+        from . import mfcommon as mc
+        mult = case["k"] if v == "R" else None
+        a = [float(x) for x in case["k"]] if v == "W" else [1.0] * sum(case["k"])
+        ids = rep([float(x) for x in self._q(case)], mult)
+        yt = box(rep(case["yt"], mult), case["cont"]["y"], "yt")
+        yp = box(rep(case["yp"], mult), case["cont"]["y"], "yp")
+        mf = fm.MetricFrame(metrics=mc.fp_par, y_true=yt, y_pred=yp, sensitive_features=self._sf(case, mult),
+                            control_features=self._cf(case, mult),
+                            sample_params={"a": box(a, case["cont"]["w"], "a"), "ids": np.array(ids)})
+        has_cf = case["cf"] is not None
+        ov = mf.overall
+        return {"by_group": mc.series_table(mf.by_group, 2 if has_cf else 1),
+                "overall": mc.series_table(ov, 1) if has_cf else [[[], mc.tok(ov)]]}
+
+    def _two_oracle(self, case):
+        """first principles: sum over the k physical copies of a*ids = sum k_i q_i per (control, group) combination"""
+        from . import mfcommon as mc
+        q = self._q(case)
+        n = len(case["yt"])
+        has_cf = case["cf"] is not None
+        gl = [mc.enc_level(GLAB[case["gtype"]][x]) for x in case["g"]]
+        cl = [CLAB[x] for x in case["cf"]] if has_cf else None
+        by, ov = {}, {}
+        for c in (sorted(set(cl)) if has_cf else [None]):
+            rows = [i for i in range(n) if not has_cf or cl[i] == c]
+            ov[(c,) if has_cf else ()] = sum((case["k"][i] * q[i] for i in rows), F(0))
+            for g in sorted(set(gl)):
+                sel = [i for i in rows if gl[i] == g]
+                by[(c, g) if has_cf else (g,)] = sum((case["k"][i] * q[i] for i in sel), F(0)) if sel else "nan"
+        return by, ov
+
+    def _two_lines(self, case):
+        from . import mfcommon as mc
+        out = []
+        q = self._q(case)
+        has_cf = case["cf"] is not None
+        for v in ("W", "R"):
+            mult = case["k"] if v == "R" else None
+            ys, ps = rep(case["yt"], mult), rep(case["yp"], mult)
+            p0 = list(case["k"]) if v == "W" else [1] * sum(case["k"])
+            cols = []
+            if has_cf:
+                cols.append(rep([CLAB[x] for x in case["cf"]], mult))
+            cols.append(rep([mc.enc_level(GLAB[case["gtype"]][x]) for x in case["g"]], mult))
+            out.append((("two", v), f"frame.eval fppar {1 if has_cf else 0} {proto.lst(ys)} {proto.lst(ps)} {proto.lst(p0)} "
+                        f"{proto.lst(rep(q, mult))} " + " ".join(proto.strs(c) for c in cols)))
+        return out
+
     def impl(self, case):
         fns, nfn = self._fns(), self._named_fns()
         out = {"base": {}, "dict": {}, "call": {}, "mix": None, "named": {}}
@@ -460,6 +523,11 @@ class CHECK(Check):
         a, b, c = case["dict_metrics"]
         wk = {a: weights_of(case, "W", "k")[1], b: weights_of(case, "W", "k2")[1], c: "omit"}
         out["mix"] = guarded(lambda: self._frame(case, dm, wk, None, case["yp"]))
+        # -- ONE metric with TWO sample parameters: a (weight-like) and ids (a second per-sample parameter that must be
+        #    replicated with its row): sum(a*ids) on W (a = k) and on R (rows repeated, a = 1, ids repeated)
+        out["two"] = {}
+        for v in ("W", "R"):
+            out["two"][v] = guarded(lambda: self._two_frame(case, v))
         # -- named fairness metrics -----------------------------------------------------------------
         meth = {"between": "between_groups", "overall": "to_overall"}[case["method"]]
         aggv = {"worst": "worst_case", "mean": "mean"}[case["agg"]]
@@ -534,6 +602,7 @@ class CHECK(Check):
             for nm in names:
                 mode, t = toks(idx_all, yp_as_pred, v)
                 plan.append((("named", v, nm), f"w.named {mode} {nm} {case['method']} {case['agg']} {t}"))
+        plan.extend(self._two_lines(case))
         return plan
 
     def lines(self, case, impl_out):
@@ -672,6 +741,47 @@ class CHECK(Check):
         rel_frames("callable frame", o["call"]["N"], o["call"]["Nn"], "C11.none_eq_ones", "omitted vs None")
         a, b, c = case["dict_metrics"]
         check_frame("mix", "W", o["mix"], {a: ("W", "k", "yp"), b: ("W", "k2", "yp"), c: ("N", "k", "yp")})
+        # ---------- one metric, two sample parameters (C11.metricframe_two_params_weight_is_multiplicity) -------------
+        from . import mfcommon as mc
+        two = o.get("two", {})
+        if two:
+            by_w, ov_w = self._two_oracle(case)
+            tabs = {}
+            for v in ("W", "R"):
+                fr = two[v]
+                if "exc" in fr:
+                    P.append(Problem("property", f"two-parameter frame [{v}] raised {fr['exc']} on valid input", "C11.accepts"))
+                    continue
+                tabs[v] = fr
+                for label, tab, want in (("by_group", fr["by_group"], by_w), ("overall", fr["overall"], ov_w)):
+                    got = {tuple(k): val for k, val in tab}
+                    if set(got) != set(want):
+                        P.append(Problem("property", f"two-parameter frame [{v}] {label} index {sorted(got)} expected {sorted(want)}",
+                                         "C11.by_group_keys"))
+                        continue
+                    for k_, val in got.items():
+                        if not mc.same(val, want[k_]):
+                            P.append(Problem("property", f"two-parameter frame [{v}] {label}{list(k_)} = {val}, replicate-and-count "
+                                             f"{want[k_]}", "C11.metricframe_two_params"))
+                if mo is not None:
+                    t = model[("two", v)].split(" ")
+                    if len(t) != 4:
+                        P.append(Problem("harness", f"model two[{v}]: {model[('two', v)]}"))
+                        continue
+                    mby = dict(zip([tuple(k_) for k_ in mc.parse_keys(t[0])], mc.parse_cells(t[1])))
+                    mov = dict(zip([tuple(k_) for k_ in mc.parse_keys(t[2])], mc.parse_cells(t[3])))
+                    if case["cf"] is None:
+                        mov = {(): x for x in mov.values()}
+                    if mby != by_w or mov != ov_w:
+                        P.append(Problem("harness", f"model two[{v}] {mby} {mov} vs oracle {by_w} {ov_w}"))
+            if len(tabs) == 2 and not any(p.relation == "C11.metricframe_two_params" for p in P):
+                for label in ("by_group", "overall"):
+                    a_, b_ = tabs["W"][label], tabs["R"][label]
+                    if [k_ for k_, _ in a_] != [k_ for k_, _ in b_] or any(
+                            not (x == y or (not isinstance(x, str) and not isinstance(y, str) and abs(x - y) <= 1e-9 * max(1, abs(x))))
+                            for (_, x), (_, y) in zip(a_, b_)):
+                        P.append(Problem("property", f"two-parameter frame {label}: weighted {a_} vs replicated {b_}",
+                                         "C11.metricframe_two_params"))
         # ---------- named metrics ------------------------------------------------------------------
         N = o["named"]
         gs_all = case["g"]
